@@ -224,7 +224,13 @@ def check(an, rep, tier):
     _RP.check_param_forwarding(prog, rep, callers=_callers)
     rep.floor('S-ret', 20, 'algebra results')
     rep.floor('U-count', 16, 'natural-norm interface vectors, mean, sum')
-    rep.floor('S-concat', 5, 'block concatenations of add')
+    # the block structure of add is typed either through its concatenations
+    # or through slice stores into a pre-allocated block core
+    blk = rep.count(rule='S-concat', status='ok') + \
+        rep.count(rule='S-store', status='ok', where='act_two.add')
+    if blk < 3:
+        rep.error('act_two.add: only %d block-assembly sites were typed '
+                  '(concatenations or slice stores), at least 3 expected' % blk)
     rep.floor('S-einsum', 3, 'einsum sites')
     rep.floor('S-matmul', 3, 'chain contractions')
     rep.floor('S-dense', 2, 'full()')
